@@ -11,6 +11,12 @@ pub struct Built {
 }
 
 pub fn build(rng: &mut Rng, nconn: usize, max_calls: usize, allow_write_fail: bool) -> Built {
+    build_cuts(rng, nconn, max_calls, allow_write_fail, false)
+}
+
+/// `fragment`: cut the byte streams at arbitrary positions instead of frame boundaries (a call then
+/// reaches the server in several reads, with other events in between).
+pub fn build_cuts(rng: &mut Rng, nconn: usize, max_calls: usize, allow_write_fail: bool, fragment: bool) -> Built {
     let mut scn = Scenario::default();
     let mut chains = Vec::new();
     let failing = if allow_write_fail && rng.chance(1, 3) { Some(rng.below(nconn)) } else { None };
@@ -38,10 +44,14 @@ pub fn build(rng: &mut Rng, nconn: usize, max_calls: usize, allow_write_fail: bo
         let mut c = ConnScn { calls, ..Default::default() };
         let stream = c.stream(client);
         let fc = frame_cuts(&stream);
-        c.cuts = match rng.below(3) {
-            0 => vec![],
-            1 => fc,
-            _ => fc.into_iter().filter(|_| rng.chance(1, 2)).collect(),
+        c.cuts = if fragment {
+            random_cuts(rng, stream.len(), 4)
+        } else {
+            match rng.below(3) {
+                0 => vec![],
+                1 => fc,
+                _ => fc.into_iter().filter(|_| rng.chance(1, 2)).collect(),
+            }
         };
         chains.push(vec![Ev::Accept(i)]);
         chains.push((0..c.chunks(client).len()).map(|_| Ev::Deliver(i)).collect());
@@ -191,7 +201,7 @@ pub fn run(cfg: &Cfg) -> Report {
     let n_rand = if miri { cfg.n(2, 8) } else { cfg.n(400_000, 12_000_000) };
     for k in 0..n_rand {
         let nconn = rng.range(1, 3);
-        let mut b = build(&mut rng, nconn, 4, true);
+        let mut b = build_cuts(&mut rng, nconn, 4, true, k % 4 == 3);
         let order = random_interleaving(&b.chains, &mut rng);
         let style = rng.below(3);
         b.scn.steps = order
